@@ -505,7 +505,8 @@ def run_program(spec, policy, n_runs=1, inputs=None, drain=True, world=None, kee
             'graph': w.graph, 'spec': spec, 'events': events, 'after': after, 'leftover_tasks': leftovers,
             'live_gates_at_end': [g.key for g in w.live_gates()],
             'live_timers_at_end': len(loop.live_timers()),
-            'verdict': verdict, 'results': [list(c.result) if c.result else None for c in ctxs],
+            'verdict': verdict,
+            'results': [list(c.result) if c.result else (['cancelled'] if c.task.cancelled() else None) for c in ctxs],
             'lock_slow_path': loop.lock_slow_path, 'handles': nh, 'choices': choices,
         }
         return res
